@@ -119,6 +119,14 @@ func (x *Exec) release(st *State, at ast.Node, cut string, recv *Val) {
 	}
 	st.held = 0
 	st.lastRelease = st.Snapshot()
+	// ghost state that the lock does not protect (e.g. the state machine's progress: Apply,
+	// Snapshot and Restore run without the node lock) may change as soon as the lock is dropped
+	for _, g := range x.e.db.Unprotected {
+		if gv, ok := x.e.db.GhostByName[g]; ok {
+			x.heapGet(st, "g."+g, x.ghostSort(gv.Type))
+			x.heapHavoc(st, "g."+g)
+		}
+	}
 }
 
 func (x *Exec) cevalClauseAt(c *Clause, st *State, fr *Frame, pos token.Pos) string {
